@@ -95,6 +95,15 @@ unsafe impl Trace for User {
     }
 }
 
+/// An inherent method named like the trait method, with a different (generic) signature: code that
+/// reaches `Trace::trace` through method-call syntax on a concrete `User` (e.g. a derive that
+/// expands to `field.trace(ctx)` instead of `<Ty as Trace>::trace(field, ctx)`) silently calls this
+/// one instead and the field is never traced.
+impl User {
+    #[allow(dead_code)]
+    pub fn trace<M>(&self, _marker: M) {}
+}
+
 impl Finalize for User {
     fn finalize(&self) {
         FIN_LOG.with(|l| l.borrow_mut().push(self.id));
